@@ -83,10 +83,20 @@ func Load(spec LoadSpec) (*Program, error) {
 		p.Pkgs[sp.Pkg.Path()] = sp
 	}
 	p.BlankImports = map[*ssa.Package][]*ssa.Package{}
+	p.InitVars = map[*ssa.Package][]*ssa.Global{}
 	packages.Visit(pkgs, nil, func(pk *packages.Package) {
 		sp := p.Pkgs[pk.PkgPath]
 		if sp == nil {
 			return
+		}
+		if pk.TypesInfo != nil {
+			for _, in := range pk.TypesInfo.InitOrder {
+				for _, v := range in.Lhs {
+					if g, ok := sp.Members[v.Name()].(*ssa.Global); ok {
+						p.InitVars[sp] = append(p.InitVars[sp], g)
+					}
+				}
+			}
 		}
 		for _, f := range pk.Syntax {
 			for _, im := range f.Imports {
